@@ -30,6 +30,21 @@ func buildAclFixture(dir string, o harness.Options) error {
 		w.IBTPTx(harness.User(0), harness.MkIBTP(to, from, 1, pb.IBTP_INTERCHAIN, 0), []byte("p"))); err != nil {
 		return err
 	}
+	// an open one-to-many group (two children begun, nothing reported)
+	{
+		src := harness.FullID(harness.ChainC, "s1")
+		keys := []string{harness.FullID(harness.ChainA, "s2"), harness.FullID(harness.ChainB, "s2")}
+		var txs []pb.Transaction
+		for _, k := range keys {
+			ib := harness.MkIBTP(src, k, 1, pb.IBTP_INTERCHAIN, 0)
+			ib.Group = &pb.StringUint64Map{Keys: keys, Vals: []uint64{1, 1}}
+			txs = append(txs, w.IBTPTx(harness.User(0), ib, []byte("p")))
+		}
+		res, err := w.Exec(txs...)
+		if err != nil || res.Receipts[0].Status != pb.Receipt_SUCCESS || res.Receipts[1].Status != pb.Receipt_SUCCESS {
+			return fmt.Errorf("open group: %v", err)
+		}
+	}
 	// ---- further callers who are "everyone else":
 	// the admin of an appchain whose id differs from chainA's only in letter case,
 	twin := harness.ChainAdmin(aclTwinChain)
@@ -175,6 +190,7 @@ func acl17Case(w *vlog.W, a *wargs, id int, rng *rand.Rand, opts harness.Options
 			sb.WriteString(fmt.Sprintf("%v|", ic))
 		}
 		sb.WriteString(fmt.Sprint(world.Status(victimA+"-"+victimB+"-1"), world.Status(victimB+"-"+victimA+"-1")))
+		sb.WriteString(fmt.Sprint("|group:", world.Status(harness.FullID(harness.ChainC, "s1")+"-"+harness.FullID(harness.ChainA, "s2")+"-1"), world.Status(harness.FullID(harness.ChainC, "s1")+"-"+harness.FullID(harness.ChainB, "s2")+"-1")))
 		return sb.String()
 	}
 	nCalls := 90
@@ -206,7 +222,7 @@ func acl17Case(w *vlog.W, a *wargs, id int, rng *rand.Rand, opts harness.Options
 			continue
 		}
 		// aimed calls: arguments taken from the victim's registered record, where a generic pool never lands
-		if aim := rng.Intn(12); aim < 2 {
+		if aim := rng.Intn(14); aim < 4 {
 			for _, cm := range classified {
 				switch {
 				case aim == 0 && cm.CName == "ServiceManager" && cm.Name == "UpdateService":
@@ -223,6 +239,19 @@ func acl17Case(w *vlog.W, a *wargs, id int, rng *rand.Rand, opts harness.Options
 					roleName = []string{"frozen-gov-admin", "frozen-gov-admin-with-pending-logout"}[rng.Intn(2)]
 					argv = []*pb.Arg{pb.String(string(pidB)), pb.String([]string{"approve", "reject"}[rng.Intn(2)]), pb.String("reason")}
 					w.Count("aimed_calls:vote-by-frozen-admin-of-the-electorate", 1)
+				case aim == 2 && cm.CName == "Governance" && cm.Name == "WithdrawProposal":
+					// the open proposal is chainA's admin's: for withdrawing it, a governance admin is "everyone else" too
+					m, cls = cm, model.AclClass(cm.CName, cm.Name)
+					roleName = append([]string{"gov-admin", "gov-admin"}, everyoneElse...)[rng.Intn(2+len(everyoneElse))]
+					argv = []*pb.Arg{pb.String(string(pidB)), pb.String("reason")}
+					w.Count("aimed_calls:withdraw-of-somebody-elses-proposal", 1)
+				case aim == 3 && cm.CName == "TransactionManager" && cm.Name == "Report":
+					// the exact id of a child of the fixture's open group, with a legal receipt type
+					m, cls = cm, model.AclClass(cm.CName, cm.Name)
+					roleName = append([]string{"gov-admin"}, everyoneElse...)[rng.Intn(1+len(everyoneElse))]
+					child := harness.FullID(harness.ChainC, "s1") + "-" + []string{harness.FullID(harness.ChainA, "s2"), harness.FullID(harness.ChainB, "s2")}[rng.Intn(2)] + "-1"
+					argv = []*pb.Arg{pb.String(child), pb.Int32(int32(1 + rng.Intn(3)))}
+					w.Count("aimed_calls:report-on-a-child-of-an-open-group", 1)
 				}
 			}
 			k = roles[roleName]
